@@ -10,7 +10,7 @@ FLAVOURS = ('digraph', 'sync_digraph', 'ungraph', 'sync_ungraph')
 
 
 # ------------------------------------------------------------------ C12
-def c12_scenarios(flavour, n, max_edges):
+def c12_scenarios(flavour, n, max_edges, removals=False):
     for seq in canon_sequences(n, max_edges):
         nodes = [[i, {'s': f'n{i}'}] for i in range(n)]
         pre = [['connect', u, v, {'s': f'e{j}'}] for j, (u, v) in enumerate(seq)]
@@ -18,6 +18,16 @@ def c12_scenarios(flavour, n, max_edges):
             steps = pre + [['g_new']] + [['g_insert', i] for i in members] + [['dump', 'lite'], ['g_roundtrip']]
             yield (flavour, 'roundtrip'), {'flavour': flavour, 'nodes': nodes, 'steps': steps,
                                            'meta': {'seq': seq, 'family': 'roundtrip'}}
+            if not removals or not seq:
+                continue
+            # states reached through a removal: which half-edge of a pair went is invisible to the node API but
+            # decides what the serialiser emits
+            pairs = sorted({(u, v) for (u, v) in seq} | {(v, u) for (u, v) in seq})
+            rems = [['disconnect', u, v] for (u, v) in pairs] + [['isolate', u] for u in sorted({x for p in seq for x in p})]
+            for rem in rems:
+                steps = pre + [rem] + [['g_new']] + [['g_insert', i] for i in members] + [['dump', 'lite'], ['g_roundtrip']]
+                yield (flavour, 'roundtrip-after-removal'), {'flavour': flavour, 'nodes': nodes, 'steps': steps,
+                                                             'meta': {'seq': seq, 'family': 'roundtrip', 'removal': rem}}
 
 
 def evaluate_c12(prop, scen, obs, ctx):
@@ -132,18 +142,19 @@ def run(prop, tier, seed):
         items = []
         for fl in FLAVOURS:
             items += list(c12_scenarios(fl, 3, 4 if tier == 'quick' else 5))
+            items += [it for it in c12_scenarios(fl, 3, 3 if tier == 'quick' else 4, removals=True) if it[0][1] == 'roundtrip-after-removal']
             if tier != 'quick':
                 items += list(c12_scenarios(fl, 4, 3))
         return scenario_check(
             prop, tier, seed, items, evaluate_c12, sig_c12,
             bounds={'nodes': 3 if tier == 'quick' else '3 (<=5 edges), 4 (<=3 edges)', 'max_edges': 4 if tier == 'quick' else 5, 'symbolic': 'node values, edge values',
-                    'free_choices': 'hash iteration order during serialisation',
+                    'free_choices': 'hash iteration order during serialisation', 'pre_histories': 'connect-only, and connect-only followed by one disconnect / isolate (<=3 edges, thorough 4)',
                     'level': 'serde data model: stub Serializer records the 2-tuple of sequences gdsl emits, stub SeqAccess hands it back',
                     'outside': 'serde_json / serde_cbor byte formats (exercised natively on every validation scenario and replay, not encoded)'},
             assumptions=['a wire format transports the serde data model faithfully for integer keys and values',
                          'AHashMap modelled as association list with free iteration order', 'std models of engine A'],
             rule='work item = canonical connect sequence, all nodes members; executor paths = iteration orders; oracle compares the rebuilt graph with the original per node',
-            expected_cells=[(fl, 'roundtrip') for fl in FLAVOURS])
+            expected_cells=[(fl, k) for fl in FLAVOURS for k in ('roundtrip', 'roundtrip-after-removal')])
     items = []
     for fl in FLAVOURS:
         items += list(c13_scenarios(fl, 3, 3) if tier == 'quick' else c13_scenarios(fl, 3, 4))
